@@ -9,7 +9,16 @@ VARIABLES i, bad, types
 vars == <<i, bad, types>>
 Init == LoadSchemas /\ TLCSet(53, ndJsonDeserialize(IOEnv.TRACE)) /\ i = 1 /\ bad = <<>> /\ types = {}
 EnvelopeID == "https://gobl.org/draft-0/envelope"
+\* a value the running library enumerates for a schema location must be accepted by the published schema there
+EnumVerdict(ev) ==
+    IF FileFor(ev.id) = {} THEN "no-published-schema-for-type"
+    ELSE LET f == CHOOSE g \in FileFor(ev.id) : TRUE
+             d == Descend(SchemaDoc[f], ev.segs, 1)
+         IN  IF ~d[1] THEN "enumeration-location-not-published"
+             ELSE IF ~Valid(f, d[2], ev.val) THEN "enumerated-value-not-in-published-schema"
+             ELSE "ok"
 Verdict(ev) ==
+    IF ev.k = "enum" THEN EnumVerdict(ev) ELSE
     LET env == ev.env IN
     IF FileFor(EnvelopeID) = {} THEN "no-envelope-schema"
     ELSE LET ef == CHOOSE f \in FileFor(EnvelopeID) : TRUE IN
@@ -22,7 +31,7 @@ Step == /\ i <= Len(Trace)
         /\ LET ev == Trace[i]
                v  == Verdict(ev)
            IN  /\ bad' = IF v = "ok" THEN bad ELSE Append(bad, <<i, v>>)
-               /\ types' = types \cup {ev.schema}
+               /\ types' = types \cup (IF ev.k = "enum" THEN {} ELSE {ev.schema})
         /\ i' = i + 1
 Spec == Init /\ [][Step]_vars
 Done == i = Len(Trace) + 1
